@@ -239,3 +239,11 @@ func ScalarMultBase(n *[32]byte) (q [32]byte) {
 	C.crypto_scalarmult_curve25519_base(p(q[:]), p(n[:]))
 	return
 }
+
+// GenericHash is crypto_generichash (unkeyed BLAKE2b) with an outLen-byte digest.
+func GenericHash(outLen int, data []byte) []byte {
+	ensure()
+	out := make([]byte, outLen)
+	C.crypto_generichash(p(out), C.size_t(outLen), p(data), C.ulonglong(len(data)), nil, 0)
+	return out
+}
